@@ -546,6 +546,99 @@ func registerIntrinsics(e *Engine) {
 	I["fmt.Printf"] = noop
 	I["fmt.Print"] = noop
 	I["fmt.Fprintf"] = noop
+	// math/rand: an arbitrary-output generator (DESIGN §3.3): what holds for every output holds for every seed
+	I["math/rand.NewSource"] = func(p *Path, fr *frame, fn *ssa.Function, args []Value, pos token.Pos) Value {
+		p.stub("math/rand => arbitrary outputs (Intn arbitrary in range, Perm arbitrary permutation)")
+		return p.opaqueIface("rand.Source", "source")
+	}
+	I["math/rand.New"] = func(p *Path, fr *frame, fn *ssa.Function, args []Value, pos token.Pos) Value {
+		return PtrV{O: p.newObj(OpaqueV{Kind: "rand.Rand"}, nil, "rand.Rand")}
+	}
+	randInt := func(w int) intrinsicFn {
+		return func(p *Path, fr *frame, fn *ssa.Function, args []Value, pos token.Pos) Value {
+			p.nrand++
+			t := p.decl(fmt.Sprintf("rand_%d", p.nrand), BV(w))
+			if len(args) > 1 { // Intn / Int63n / Int31n: 0 <= t < n (n <= 0 panics)
+				n := args[1].(*Term)
+				if p.forkBool(p.tb.BVLe(n, BVConst(0, w), true), fr, pos) {
+					p.goPanic(fr, pos, "invalid argument to Intn")
+				}
+				p.assertPC(p.tb.BVLt(t, n, false))
+			} else {
+				p.assertPC(p.tb.BVLe(BVConst(0, w), t, true))
+			}
+			return t
+		}
+	}
+	I["(*math/rand.Rand).Intn"] = randInt(64)
+	I["(*math/rand.Rand).Int63n"] = randInt(64)
+	I["(*math/rand.Rand).Int31n"] = randInt(32)
+	I["(*math/rand.Rand).Int63"] = randInt(64)
+	I["(*math/rand.Rand).Int"] = randInt(64)
+	I["(*math/rand.Rand).Uint64"] = func(p *Path, fr *frame, fn *ssa.Function, args []Value, pos token.Pos) Value {
+		p.nrand++
+		return p.decl(fmt.Sprintf("rand_%d", p.nrand), BV(64))
+	}
+	I["(*math/rand.Rand).Perm"] = func(p *Path, fr *frame, fn *ssa.Function, args []Value, pos token.Pos) Value {
+		nT := args[1].(*Term)
+		if !nT.c {
+			p.unsupported(fr, pos, "rand.Perm of symbolic length")
+		}
+		n := int(nT.u)
+		if n > p.E.Cfg.MaxPermute+2 {
+			p.abort("inconclusive", fmt.Sprintf("rand.Perm(%d): arbitrary-permutation model limited to %d elements", n, p.E.Cfg.MaxPermute+2))
+		}
+		rem := make([]int, n)
+		for i := range rem {
+			rem[i] = i
+		}
+		arr := make([]Value, 0, n)
+		for len(rem) > 1 {
+			c := p.choose(len(rem), "rand.Perm")
+			arr = append(arr, BVConst(uint64(rem[c]), 64))
+			rem = append(rem[:c:c], rem[c+1:]...)
+		}
+		if n > 0 {
+			arr = append(arr, BVConst(uint64(rem[0]), 64))
+		}
+		return SliceV{O: p.newObj(&ArrayV{E: arr, Mut: true}, nil, "rand.Perm"), Len: n, Cap: n}
+	}
+	// keccak: an uninterpreted function of the input bytes (DESIGN §3.3)
+	hashUF := func(n int, tag string) intrinsicFn {
+		return func(p *Path, fr *frame, fn *ssa.Function, args []Value, pos token.Pos) Value {
+			p.stub("crypto." + tag + " => uninterpreted function of the input bytes")
+			in := p.sliceTerms(args[0].(SliceV))
+			srt := make([]Sort, n)
+			for k := range srt {
+				srt[k] = BV(8)
+			}
+			out := p.uf(fmt.Sprintf("%s/%d", tag, len(in)), in, srt)
+			arr := make([]Value, n)
+			for k := range arr {
+				arr[k] = out[k]
+			}
+			return &ArrayV{E: arr}
+		}
+	}
+	I[RepoMod+"/crypto.Hash"] = hashUF(32, "Hash")
+	I[RepoMod+"/crypto.Hash128"] = hashUF(16, "Hash128")
+	// text renderings of addresses/hashes (checksummed hex via keccak): formatting is not the subject
+	txt := func(p *Path, fr *frame, fn *ssa.Function, args []Value, pos token.Pos) Value {
+		p.stub(fn.String() + " => constant text")
+		return StrConst("<hex>")
+	}
+	for _, t := range []string{"Address", "Hash", "Hash128"} {
+		I["("+RepoMod+"/common."+t+").Hex"] = txt
+		I["("+RepoMod+"/common."+t+").String"] = txt
+	}
+	I["reflect.TypeOf"] = func(p *Path, fr *frame, fn *ssa.Function, args []Value, pos token.Pos) Value {
+		p.stub("reflect.TypeOf => opaque type token")
+		return p.opaqueIface("reflect.Type", "type")
+	}
+	I["context.Background"] = func(p *Path, fr *frame, fn *ssa.Function, args []Value, pos token.Pos) Value {
+		return p.opaqueIface("context", "background")
+	}
+	I["context.TODO"] = I["context.Background"]
 	I["runtime.Callers"] = func(p *Path, fr *frame, fn *ssa.Function, args []Value, pos token.Pos) Value { return BVConst(0, 64) }
 	I["runtime.KeepAlive"] = noop
 	I["runtime.Gosched"] = noop
